@@ -379,13 +379,6 @@ func rangeSM9(c *mon.Case, fam string, bad badScalar) {
 				continue
 			}
 			k, err := p()
-			if err == nil && sm9NegativeTakenAsAbs(k, bad.v) {
-				// bug model of the open finding: the decoder drops the sign of a negative INTEGER
-				c.Event("negatives_accepted", 1)
-				c.Known("sm9-negative-master-scalar", "accept", "%s, scalar %s = %x): the negative INTEGER is accepted and decoded as the key %x",
-					what, bad.name, bad.v, new(big.Int).Abs(bad.v))
-				continue
-			}
 			refused(c, fmt.Sprintf("%s, out-of-range scalar %s = %x)", what, bad.name, bad.v), k, err)
 		}
 	}
@@ -411,33 +404,4 @@ func rangeSM9(c *mon.Case, fam string, bad badScalar) {
 	} else {
 		c.Event("sm9_scalar_N-1_accepted(observation)", 1)
 	}
-}
-
-// sm9NegativeTakenAsAbs is the model of the defect "the SM9 master private key decoders
-// ignore the sign of the ASN.1 INTEGER": v is negative, |v| is a valid scalar and the
-// returned key holds exactly |v|.
-func sm9NegativeTakenAsAbs(k any, v *big.Int) bool {
-	if v.Sign() >= 0 {
-		return false
-	}
-	abs := new(big.Int).Abs(v)
-	if abs.Cmp(new(big.Int).Sub(sm9Order, big1)) >= 0 {
-		return false
-	}
-	var b []byte
-	switch g := k.(type) {
-	case *sm9.SignMasterPrivateKey:
-		if g == nil {
-			return false
-		}
-		b = g.Bytes()
-	case *sm9.EncryptMasterPrivateKey:
-		if g == nil {
-			return false
-		}
-		b = g.Bytes()
-	default:
-		return false
-	}
-	return new(big.Int).SetBytes(b).Cmp(abs) == 0
 }
